@@ -873,8 +873,42 @@ def mon_B(case, pid):
             if hits != buffered + added + dropped + in_flight:
                 seen.add("C15")
                 yield finding("C15", st, f"hits {hits} != buffered {buffered} + delivered {added} + dropped {dropped} + reads between lookup and buffer {in_flight}", "C15/records-not-conserved/layerB")
-        if pid == "C02" and out.startswith("c") and ":value " in out:
-            pass
+        if pid in ("C02", "C04"):
+            # per-client bookkeeping of the request in progress
+            st_state = getattr(mon_B, "_st", None)
+            if st_state is None or st_state.get("case") is not case:
+                st_state = {"case": case, "req": {}, "deleted": {}, "read": {}, "prev_pcs": {}, "prev_snap": None}
+                mon_B._st = st_state
+            t = st.ev.split()
+            if len(t) >= 4 and t[1] == "issue":
+                st_state["req"][t[2]] = t[3:]
+            if len(t) >= 3 and t[1] == "client":
+                c = "c" + t[2]
+                req = st_state["req"].get(t[2], [])
+                before = st_state["prev_pcs"].get(c)
+                prev = st_state["prev_snap"]
+                if prev is not None and req:
+                    if before == "delete.mark" and req[0] == "delete":
+                        e = prev["store"].get(int(req[1]))
+                        if e is not None:
+                            st_state["deleted"][e["id"]] = st.index
+                    if before == "store.get" and req[0] == "get":
+                        k = int(req[1])
+                        e = prev["store"].get(k)
+                        now_at = pcs.get(c)
+                        if now_at == "pool.add":
+                            st_state["read"][c] = (k, e)
+                            if e is None or not readable(e, prev["now"]):
+                                yield finding("C02", st, f"a read of key {k} found a value although the entry is {'absent' if e is None else 'not alive'}", "C02/value-of-dead-entry/layerB") if pid == "C02" else finding("C04", st, f"a read of key {k} found a value although the entry is dead", "C04/read-of-dead-entry/layerB")
+                            elif e["id"] in st_state["deleted"] and pid == "C04":
+                                yield finding("C04", st, f"get({k}) read the incarnation (id {e['id']}) whose delete() had already marked it at action {st_state['deleted'][e['id']]}", "C04/read-after-delete/layerB")
+                if out.startswith(c + ":value ") and pid == "C02":
+                    got = out.split(":value ", 1)[1]
+                    rd = st_state["read"].pop(c, None)
+                    if got != "-" and rd is not None and rd[1] is not None and int(got) != rd[1]["value"]:
+                        yield finding("C02", st, f"get({rd[0]}) returned {got}, the entry it looked up held {rd[1]['value']}", "C02/read-disagrees-with-store/layerB")
+            st_state["prev_pcs"] = pcs
+            st_state["prev_snap"] = snap
 
 
 PERSISTENT = ("C05", "C15", "C16")   # state predicates: once false they stay false; only the first step of a case names the cause
